@@ -80,6 +80,74 @@ static tbl::Cls<A::Payload> genericPayloadCls()
     return c;
 }
 
+// TECMP::Payload: type accessors must not touch the data bytes
+static tbl::Cls<TECMP::Payload> tecmpGenericPayloadCls()
+{
+    using T = TECMP::Payload;
+    tbl::Cls<T> c;
+    c.name = "TECMP::Payload";
+    c.makeBg = [](int bg) {
+        Bytes d = bgImage(7, bg == 0 ? 3 : bg);
+        return T(TECMP::PayloadType(bg == 2 ? 0xFFFFu : (bg == 3 ? 0x1234u : 0x0302u)), d.data(), d.size());
+    };
+    c.fields = {
+        FLD(T, "Type", 32, -1, 0, 0, o.setType(TECMP::PayloadType((uint32_t) v)), o.getType().getType()),
+        FLD(T, "MessageType", 8, -1, 0, 0, o.setMessageType(static_cast<TECMP::CmpHeader::MessageType>(v)), o.getMessageType()),
+        FLD(T, "RawPayloadType", 8, -1, 0, 0, o.setRawPayloadType((uint8_t) v), o.getRawPayloadType()),
+        FLD(T, "Length(read-only)", 1, -1, 0, 0, (void) o, o.getLength()),
+        FLD(T, "Bytes(read-only)", 1, -1, 0, 0, (void) o, mc::fnv(o.getRawPayload(), o.getLength())),
+    };
+    c.fields[0].aliases = {"MessageType", "RawPayloadType"};
+    return c;
+}
+
+// derived TECMP accessors: getVoltage, version strings, LinPayload::setData
+static void c12TecmpDerived(W& w)
+{
+    for (int whole = 0; whole < 256; whole += 5)
+        for (int frac = 0; frac < 256; frac += 3)
+        {
+            auto desc = [&] { return ofmt("k=c12tecmp;whole=%d;frac=%d", whole, frac); };
+            if (!w.begin_case(desc))
+                continue;
+            TECMP::CaptureModulePayload p;
+            p.setVoltageWhole((uint8_t) whole);
+            p.setVoltageFraction((uint8_t) frac);
+            p.setSwVersionMajor((uint8_t) whole); p.setSwVersionMinor((uint8_t) frac); p.setSwVersionPatch((uint8_t) (whole ^ frac));
+            p.setHwVersionMajor((uint8_t) frac); p.setHwVersionMinor((uint8_t) whole);
+            float want = (float) whole + (float) frac / 100.0f;
+            if (p.getVoltage() != want)
+                w.fail("layout:TECMP::CaptureModulePayload::getVoltage", ofmt("whole %d fraction %d: getVoltage() = %f", whole, frac, p.getVoltage()));
+            if (p.getSwVersion() != ofmt("v%d.%d.%d", whole, frac, whole ^ frac) || p.getHwVersion() != ofmt("v%d.%d", frac, whole))
+                w.fail("layout:TECMP::CaptureModulePayload::version-strings", "sw '" + p.getSwVersion() + "' hw '" + p.getHwVersion() + "'");
+            w.add(mc::C_TRACES, 1);
+            w.add(mc::C_TRANS, 1);
+        }
+    for (int prior = 0; prior < 3; ++prior)
+        for (int len = 0; len < 256; ++len)
+        {
+            auto desc = [&] { return ofmt("k=c12tecmp;linlen=%d;prior=%d", len, prior); };
+            if (!w.begin_case(desc))
+                continue;
+            TECMP::LinPayload p;
+            p.setPid(0x5A);
+            Bytes q = bgImage((size_t) (prior == 1 ? len / 2 : len + 9), 3);
+            if (prior)
+                p.setData(q.data(), (uint8_t) std::min<size_t>(q.size(), 255));
+            Bytes d = bgImage((size_t) len, 2);
+            for (auto& x : d)
+                x ^= 0x3C;
+            p.setData(d.data(), (uint8_t) len);
+            Bytes e = {0x5A, (uint8_t) len};
+            e.insert(e.end(), d.begin(), d.end());
+            Bytes r(p.getRawPayload(), p.getRawPayload() + p.getLength());
+            if (r != e || p.getDataLength() != len || p.getPid() != 0x5A || (len && memcmp(p.getData(), d.data(), (size_t) len) != 0))
+                w.fail("builder:TECMP::LinPayload::setData", ofmt("setData(%d bytes) after prior contents %d: raw %s", len, prior, mc::hex(r.data(), std::min<size_t>(r.size(), 24)).c_str()));
+            w.add(mc::C_TRACES, 1);
+            w.add(mc::C_TRANS, 1);
+        }
+}
+
 // C12 for Packet: the two serialisers against hand-laid-out images
 static void c12Packet(W& w)
 {
@@ -239,6 +307,7 @@ static std::vector<ErasedCls> allClasses()
     v.push_back(erase(tbl::tecmpLin()));
     v.push_back(erase(tbl::tecmpIf()));
     v.push_back(erase(tbl::tecmpCm()));
+    v.push_back(erase(tecmpGenericPayloadCls()));
     return v;
 }
 
@@ -284,6 +353,11 @@ int main(int argc, char** argv)
                        "the protocol layouts (DESIGN.md Appendix A); distinct = distinct (class, field, population count of the value) combinations executed";
         run.replay_case = [prop](W& w, const std::string& cs) {
             auto kv = mc::kv_parse(cs);
+            if (kv["k"] == "c12tecmp")
+            {
+                c12TecmpDerived(w);
+                return;
+            }
             if (kv["k"] == "c11mask")
             {
                 // cheap: re-run the whole mask sweep of that class
@@ -335,6 +409,7 @@ int main(int argc, char** argv)
         {
             run.round("class level: default images, reserved bits, header sizes", classes.size(), [&](W& w, uint64_t o) { classes[o].runClass(w); });
             run.round("Packet serialisers against hand-laid-out images", 1, [&](W& w, uint64_t) { c12Packet(w); });
+            run.round("derived TECMP accessors (voltage, version strings) and TECMP::LinPayload::setData", 1, [&](W& w, uint64_t) { c12TecmpDerived(w); });
         }
         (void) thorough;
         return run.finish();
